@@ -21,6 +21,7 @@ type gen struct {
 	g   *sg.G
 	n   int
 	vis []gref // groupings visible from the module being generated
+	idb string // identity base of the module being generated, with its prefix ("" before the first module)
 }
 
 func (x *gen) id(p string) string { x.n++; return fmt.Sprintf("%s%d", p, x.n) }
@@ -30,7 +31,14 @@ func sp(s string) *string { return &s }
 func (x *gen) leaf(name string) *sg.Node {
 	g := x.g
 	n := &sg.Node{Kind: "leaf", Name: name}
-	switch g.Pick(4, "ltype") {
+	lt := g.Pick(5, "ltype")
+	if lt == 4 && x.idb == "" {
+		lt = 0
+	}
+	switch lt {
+	case 4:
+		// which identities the leaf takes unqualified depends on the module it ends up in
+		n.Type = &sg.TypeSpec{Name: "identityref", Base: x.idb}
 	case 0:
 		n.Type = &sg.TypeSpec{Name: "string"}
 		if g.Chance(1, 3, "ldef") {
@@ -337,6 +345,16 @@ func genCase(t *rapid.T) Case {
 				}
 			}
 		}
+		// identities: a base and a derived one per module, and one derived from the base of an imported module
+		m.Identities = []*sg.Identity{{Name: fmt.Sprintf("idbase-%d", i)}, {Name: fmt.Sprintf("idder-%d", i), Base: fmt.Sprintf("%s:idbase-%d", m.Prefix, i)}}
+		for _, imp := range m.Imports {
+			for j, om := range mods {
+				if om.Name == imp.Mod {
+					m.Identities = append(m.Identities, &sg.Identity{Name: fmt.Sprintf("idx-%d-%d", i, j), Base: fmt.Sprintf("%s:idbase-%d", imp.Prefix, j)})
+				}
+			}
+		}
+		x.idb = fmt.Sprintf("%s:idbase-%d", m.Prefix, i)
 		m.Features = []*sg.Feature{{Name: fmt.Sprintf("f%d", i)}}
 		feats := []string{m.Prefix + ":" + m.Features[0].Name}
 		ng := 1 + g.Pick(3, "ngroupings")
@@ -411,7 +429,12 @@ func genCase(t *rapid.T) Case {
 			imp := m.Imports[g.Pick(len(m.Imports), "ximp")]
 			for _, tm := range mods {
 				if tm.Name == imp.Mod {
+					// (no identityref here: the inlined form writes these nodes into the target module's text, which has no
+					// prefix for the augmenting module)
+					saved := x.idb
+					x.idb = ""
 					a := &sg.Augment{Target: "/" + imp.Prefix + ":" + tm.Nodes[0].Name, Kids: []*sg.Node{x.leaf(x.id("xa")), {Kind: "container", Name: x.id("xc"), Kids: []*sg.Node{x.leaf(x.id("xl"))}}}}
+					x.idb = saved
 					a.Kids[0].Mandatory = ""
 					a.Kids[1].Kids[0].Mandatory = ""
 					m.Augments = append(m.Augments, a)
